@@ -471,6 +471,7 @@ def verdict(schema, df):
     return "internal:" + o["exc_type"], f"{o.get('where')}: {o.get('msg')}"
 
 
+_MUTATED_ARGS = []  # filled by _call, read (and cleared) by evaluate: arguments of the caller a method wrote into
 _ALIASED = []  # filled by _call, read (and cleared) by evaluate: components of a result that alias the caller's objects
 
 
@@ -513,11 +514,25 @@ def _call(S, op, cur, backend):
             return out
         if k == "update_column":
             return S.update_column(op["col"], **kwargs(op["col"], {op["attr"]: op["value"]}))
-        return S.update_columns({n: kwargs(n, kw) for n, kw in op["updates"].items()})
+        upd = {n: kwargs(n, kw) for n, kw in op["updates"].items()}
+        shape = {n: sorted(d) for n, d in upd.items()}
+        R = S.update_columns(upd)
+        # the request belongs to the caller (who may reuse it for another schema): same columns, same properties
+        if {n: sorted(d) for n, d in upd.items()} != shape:
+            _MUTATED_ARGS.append({"before": shape, "after": {n: sorted(d) for n, d in upd.items()}})
+        return R
     if k == "set_index":
-        return S.set_index(list(op["keys"]), drop=op["drop"], append=op["append"])
+        keys = list(op["keys"])
+        R = S.set_index(keys, drop=op["drop"], append=op["append"])
+        if keys != list(op["keys"]):
+            _MUTATED_ARGS.append({"before": list(op["keys"]), "after": keys})
+        return R
     if k == "reset_index":
-        return S.reset_index(level=None if op["level"] is None else list(op["level"]), drop=op["drop"])
+        level = None if op["level"] is None else list(op["level"])
+        R = S.reset_index(level=level, drop=op["drop"])
+        if level is not None and level != list(op["level"]):
+            _MUTATED_ARGS.append({"before": list(op["level"]), "after": level})
+        return R
     raise HarnessError(f"unknown op {k}")
 
 
@@ -627,6 +642,9 @@ def evaluate(case):
         if _ALIASED:
             ev.add(f"result-aliases-callers-objects:{k}", {"step": step, "op": op, "columns": _ALIASED[-1]})
             del _ALIASED[:]
+        if _MUTATED_ARGS:
+            ev.add(f"method-modified-its-argument:{k}", {"step": step, "op": op, **_MUTATED_ARGS[-1]})
+            del _MUTATED_ARGS[:]
         for n in info["touched"] + info["moved"]:
             c = next((c for c in M.components(new_spec) if c["name"] == n), None)
             if c is not None and _nondefault(c) >= 3:
